@@ -76,8 +76,12 @@ PAIRS = [("tsl", "tsl"), ("none", "tsl"), ("tsl", "none"), ("strided", "strided"
 class TransformDMA_contract:
     target = "snaxc.transforms.snax_copy_to_dma.TransformDMA.match_and_rewrite"
     shapes = [dict(src=s, dst=d, rank=r, depth=dp, bits=b) for s, d in PAIRS for r in (1, 2) for dp in (1, 2) for b in (8, 32)
-              if not ("tsl" not in (s, d) and dp == 2) and not (r == 2 and dp == 2 and (s, d) != ("tsl", "tsl")) and not (b == 8 and (r, dp) != (1, 1))]
-    quick = lambda sh: sh["rank"] * sh["depth"] <= 2
+              if not ("tsl" not in (s, d) and dp == 2) and not (r == 2 and dp == 2 and (s, d) != ("tsl", "tsl")) and not (b == 8 and (r, dp) != (1, 1))] + [
+        # deep loop nests: no source level has step 1, so the common block is a single element and EVERY level becomes a loop
+        dict(src="tsl", dst="tsl", rank=2, depth=2, bits=32, lcb="single"), dict(src="tsl", dst="tsl", rank=1, depth=3, bits=32, lcb="single"),
+        # the same 4-level nest with the loop order fixed (bounds strictly decreasing in (dim, depth) order): 1/24 of the paths
+        dict(src="tsl", dst="tsl", rank=2, depth=2, bits=32, lcb="single_sorted")]
+    quick = lambda sh: sh["rank"] * sh["depth"] <= 2 or (sh.get("lcb") == "single" and sh["rank"] == 1) or sh.get("lcb") == "single_sorted"
     native = False
     total = True
     permissive = True
@@ -102,6 +106,15 @@ class TransformDMA_contract:
         nlev = r * dp if "tsl" in (sh["src"], sh["dst"]) else r
         t = [sym.int(f"t{i}", 0) for i in range(nlev)]
         return [op, src, dst, t, shape]
+
+    def requires(sh, a):
+        if sh.get("lcb") in ("single", "single_sorted"):
+            lv = [s for _, _, s in a[1].type.layout.data]
+            ok = all(s.step >= 2 for s in lv)
+            if sh["lcb"] == "single_sorted":
+                ok = ok and all(lv[i].bound > lv[i + 1].bound for i in range(len(lv) - 1))
+            return ok
+        return True
 
     def run(sh, a):
         op = a[0]
@@ -171,3 +184,115 @@ class TransformDMA_contract:
 
     def canary(sh, a, ret):
         check("canary: every copy is a single 1-D transfer", find_call([e for e in ret if e[0] == "replace_op"][0][2][0], []).callee.string_value() == "snax_dma_1d_transfer" and sh["rank"] > 1)
+
+
+from xdsl.dialects.builtin import DYNAMIC_INDEX  # noqa: E402
+
+
+@contract
+class get_total_size_op_contract:
+    target = "snaxc.transforms.snax_copy_to_dma.get_total_size_op"
+    shapes = [dict(rank=r, bits=b) for r in (1, 2, 3, 4) for b in (8, 16, 64)]
+    quick = lambda sh: sh["rank"] <= 3
+    native = False
+    total = True
+
+    def args(sh, sym):
+        shape = [sym.int(f"N{d}", 0) for d in range(sh["rank"])]
+        return [mk_memref_value(MemRefType(IntegerType(sh["bits"]), shape, NoneAttr()), shape, None, 0, 0)]
+
+    def ensures(sh, a, ret):
+        ops, total = ret
+        n = 1
+        for d in range(sh["rank"]):
+            n = n * a[0].rt_shape[d]
+        check("den(total size) == element bytes * product of the run-time shape", den(total) == (sh["bits"] // 8) * n)
+        check("the size op is in the returned op list, after everything it uses", ops[-1] is total)
+
+    def canary(sh, a, ret):
+        check("canary: size ignores the element width", den(ret[1]) == a[0].rt_shape[0])
+
+
+@contract
+class MatchSimpleCopy_contract:
+    target = "snaxc.transforms.snax_copy_to_dma.MatchSimpleCopy.match_and_rewrite"
+    shapes = [dict(rank=r, bits=b, layout=l) for r in (1, 2, 3) for b in (8, 32) for l in ("none", "src_tsl", "dst_strided")]
+    native = False
+    total = True
+    permissive = True
+
+    def args(sh, sym):
+        shape = [sym.int(f"N{d}", 1) for d in range(sh["rank"])]
+        ls = TiledStridedLayoutAttr(mk_tsl(sym, sh["rank"], 1)) if sh["layout"] == "src_tsl" else NoneAttr()
+        ld = StridedLayoutAttr([1] * sh["rank"], 0) if sh["layout"] == "dst_strided" else NoneAttr()
+        src = mk_memref_value(MemRefType(IntegerType(sh["bits"]), shape, ls), shape, None, 0, sym.int("ps", 0))
+        dst = mk_memref_value(MemRefType(IntegerType(sh["bits"]), shape, ld), shape, None, 0, sym.int("pd", 0))
+        return [CopyOp(src, dst), src, dst, shape]
+
+    def run(sh, a):
+        rw = PatternRewriter(a[0])
+        c2d.MatchSimpleCopy().match_and_rewrite(a[0], rw)
+        return rw.log
+
+    def ensures(sh, a, ret):
+        op, src, dst, shape = a
+        if sh["layout"] != "none":
+            check("copies with an explicit layout are left to TransformDMA", len(ret) == 0)
+        else:
+            rep = [e for e in ret if e[0] == "replace_op"]
+            check("replaced by one call", len(rep) == 1 and rep[0][1] is op and len(rep[0][2]) == 1 and isinstance(rep[0][2][0], func.CallOp))
+            call = rep[0][2][0]
+            n = 1
+            for x in shape:
+                n = n * x
+            check("one 1-D transfer of all bytes between the two aligned pointers",
+                  call.callee.string_value() == "snax_dma_1d_transfer" and den(call.operands[0]) == src.rt_ptr and den(call.operands[1]) == dst.rt_ptr
+                  and den(call.operands[2]) == (sh["bits"] // 8) * n)
+
+    def canary(sh, a, ret):
+        check("canary: never rewritten", len(ret) == 0 and sh["layout"] == "none")
+
+
+@contract
+class extract_strides_offset_contract:
+    target = "snaxc.transforms.snax_copy_to_dma.extract_strides"
+    shapes = [dict(rank=r, layout=l, dyn=d) for r in (1, 2, 3, 4) for l in ("none", "strided") for d in range(-1, r) if not (l == "strided" and d > 0)]
+    quick = lambda sh: sh["rank"] <= 3
+    native = False
+    total = True
+
+    def args(sh, sym):
+        r = sh["rank"]
+        shape = [DYNAMIC_INDEX if d == sh["dyn"] else sym.int(f"N{d}", 1) for d in range(r)]
+        if sh["layout"] == "none":
+            return [MemRefType(IntegerType(32), shape, NoneAttr()), shape, None, None]
+        strides = [None if (sh["dyn"] == 0 and d == 0) else sym.int(f"S{d}", 1) for d in range(r)]
+        off = None if sh["dyn"] == 0 else sym.int("off", 0)
+        return [MemRefType(IntegerType(32), shape, StridedLayoutAttr(strides, off)), shape, strides, off]
+
+    def run(sh, a):
+        return (c2d.extract_strides(a[0]), c2d.extract_offset(a[0]))
+
+    def ensures(sh, a, ret):
+        ty, shape, strides, off = a
+        got, goff = ret
+        r = sh["rank"]
+        if sh["layout"] == "strided":
+            check("strided layout: strides verbatim, dynamic ones as None", got == strides)
+            check("strided layout: offset verbatim (None when dynamic)", goff == off or (goff is None and off is None))
+        else:
+            check("default layout: offset 0", goff == 0)
+            check("innermost stride 1", got[r - 1] == 1)
+            for i in range(r - 1):
+                # s_i = prod_{j>i} shape_j, None from the first dynamic factor outwards
+                dyn_inner = any(j == sh["dyn"] for j in range(i + 1, r))
+                if dyn_inner:
+                    check(f"stride {i}: unknown because an inner size is dynamic", got[i] is None)
+                else:
+                    p = 1
+                    for j in range(i + 1, r):
+                        p = p * shape[j]
+                    check(f"stride {i}: row-major product of the inner sizes", got[i] == p)
+
+    def canary(sh, a, ret):
+        check("canary: all strides are 1", all(s == 1 for s in ret[0]) and sh["rank"] > 1)
